@@ -54,3 +54,6 @@ func Promhttp_Handler() http.Handler { return metricsHandler{} }
 
 // Std_Handler (go-http-metrics middleware): measuring wrapper = the handler itself.
 func Std_Handler(handlerID string, m any, h http.Handler) http.Handler { return h }
+
+// Html_EscapeString: only used for error texts; identity.
+func Html_EscapeString(s string) string { return s }
